@@ -10,6 +10,8 @@ use vstd::std_specs::bits::*;
 use vstd::std_specs::cmp::*;
 use vstd::std_specs::ops::*;
 verus! {
+// target assumption (stated in every evidence file): 64-bit usize, so `limb as usize` is lossless
+global size_of usize == 8;
 //@ include lib/base.rs
 //@ include lib/lvr.rs
 //@ include lib/shift.rs
@@ -113,12 +115,21 @@ pub proof fn lemma_lvr_nonzero(s: Seq<u64>, lo: int, hi: int, j: int)
     assert(bp(j - lo) * lvr(s, j, hi) >= 1) by(nonlinear_arith) requires bp(j - lo) >= 1, lvr(s, j, hi) >= 1;
 }
 
+// N14-style wrapper: `limbs[1..].iter().any(|&limb| limb != 0)` is routed through this function whose body IS that expression.
+// ASSUMED (label A, std's Iterator::any on a sub-slice): some limb above the first is non-zero. Kani: core_specs (lengths <= 6).
+#[verifier::external_body]
+pub fn any_nonzero_above_first<const N: usize>(limbs: &[u64; N]) -> (r: bool)
+    requires N >= 1
+    ensures r == (exists|j: int| 1 <= j < N && limbs[j] != 0)
+{ limbs[1..].iter().any(|&limb| limb != 0) }
+
 impl<const BITS: usize, const LIMBS: usize> Uint<BITS, LIMBS> {
 //@ import core LIMBS
 //@ import core MASK
 //@ import core ZERO
 //@ import core MAX
 //@ import core apply_mask
+//@ import core as_limbs
 
     // the value left-shifted by whole limbs plus b bits, from the limb-level facts the loops establish
     pub proof fn lemma_shl_result(a: Self, r: Self, L: int, b: nat, carry: int, hi_nz: bool)
@@ -463,6 +474,76 @@ impl<const BITS: usize, const LIMBS: usize> Uint<BITS, LIMBS> {
             (value, false) => Some(value),
             _ => None,
         }
+    }
+//@ end
+    // a Uint-typed amount with any limb above the first non-zero is >= 2^64 > BITS: everything is shifted out
+    pub proof fn lemma_big_amount(self, rhs: Self, any_hi: bool)
+        requires self.wf(), rhs.wf(), BITS > 0, BITS <= usize::MAX - 63,
+            any_hi == (exists|j: int| 1 <= j < LIMBS && rhs.limbs[j] != 0),
+        ensures
+            any_hi ==> (self.val() * pow2(rhs.val())) % pow2(BITS as nat) == 0 && (self.val() as int) / (pow2(rhs.val()) as int) == 0,
+            !any_hi ==> rhs.val() == rhs.limbs[0] as nat,
+    {
+        let n = LIMBS as int;
+        lemma_lvr_is_lv(rhs.limbs@, LIMBS as nat);
+        lemma_lvr_split(rhs.limbs@, 0, 1, n);
+        lemma_lvr_bound(rhs.limbs@, 1, n);
+        assert(lvr(rhs.limbs@, 0, 1) == rhs.limbs[0] as int) by { assert(lvr(rhs.limbs@, 1, 1) == 0); assert(B * 0 == 0); }
+        assert(bp(1) == B) by { assert(bp(0) == 1); assert(B * 1 == B); }
+        if any_hi {
+            let j = choose|j: int| 1 <= j < LIMBS && rhs.limbs[j] != 0;
+            lemma_lvr_nonzero(rhs.limbs@, 1, n, j);
+            let hi = lvr(rhs.limbs@, 1, n);
+            assert(B * hi >= B) by(nonlinear_arith) requires hi >= 1;
+            let r = rhs.val();
+            assert(r >= 0x1_0000_0000_0000_0000);
+            // 2^r is a multiple of 2^BITS and exceeds the value
+            let d = (r - BITS) as nat;
+            lemma_pow2_adds(BITS as nat, d); lemma_pow2_pos(d); lemma_pow2_pos(BITS as nat);
+            self.lemma_wf_lt();
+            let m = pow2(BITS as nat) as int; let pd = pow2(d) as int; let v = self.val() as int;
+            assert(v * (m * pd) == m * (v * pd)) by(nonlinear_arith);
+            lemma_mod_multiples_basic(v * pd, m);
+            lemma_mul_is_commutative(m, v * pd);
+            assert(v < m * pd) by(nonlinear_arith) requires v < m, pd >= 1, m >= 1;
+            lemma_basic_div(v, m * pd);
+        } else {
+            lemma_lvr_zero(rhs.limbs@, 1, n);
+            assert(B * 0 == 0);
+        }
+    }
+
+//@ extract src/bits.rs fn shl ctx=">Shl<Self>forUint<BITS,LIMBS>" vis=none as=Shl_Self_val__shl rewrite="-> Self :: Output" => "-> Self" #1 rewrite="rhs . as_limbs ( ) [ 1 .. ] . iter ( ) . any ( | & limb | limb != 0 )" => "any_nonzero_above_first(rhs.as_limbs())" #1
+    fn Shl_Self_val__shl(self, rhs: Self) -> /*+*/(r:/*-*/ Self/*+*/)
+        requires self.wf(), rhs.wf(), BITS <= usize::MAX - 63
+        ensures r.wf(), r.val() == (self.val() * pow2(rhs.val())) % pow2(BITS as nat)/*-*/
+    {
+        if BITS == 0 {
+            /*+*/proof { lemma2_to64(); self.lemma_wf_lt(); lemma_small_mod(0, 1); assert(0 * pow2(rhs.val()) == 0) by(nonlinear_arith); }/*-*/
+            return self;
+        }
+        /*+*/proof { self.lemma_big_amount(rhs, exists|j: int| 1 <= j < LIMBS && rhs.limbs[j] != 0); }/*-*/
+        if any_nonzero_above_first(rhs.as_limbs()) {
+            return Self::ZERO();
+        }
+        self.wrapping_shl(rhs.as_limbs()[0] as usize)
+    }
+//@ end
+
+//@ extract src/bits.rs fn shr ctx=">Shr<Self>forUint<BITS,LIMBS>" vis=none as=Shr_Self_val__shr rewrite="-> Self :: Output" => "-> Self" #1 rewrite="rhs . as_limbs ( ) [ 1 .. ] . iter ( ) . any ( | & limb | limb != 0 )" => "any_nonzero_above_first(rhs.as_limbs())" #1
+    fn Shr_Self_val__shr(self, rhs: Self) -> /*+*/(r:/*-*/ Self/*+*/)
+        requires self.wf(), rhs.wf(), BITS <= usize::MAX - 63
+        ensures r.wf(), r.val() as int == (self.val() as int) / (pow2(rhs.val()) as int)/*-*/
+    {
+        if BITS == 0 {
+            /*+*/proof { lemma2_to64(); self.lemma_wf_lt(); lemma_pow2_pos(rhs.val()); lemma_basic_div(0, pow2(rhs.val()) as int); }/*-*/
+            return self;
+        }
+        /*+*/proof { self.lemma_big_amount(rhs, exists|j: int| 1 <= j < LIMBS && rhs.limbs[j] != 0); }/*-*/
+        if any_nonzero_above_first(rhs.as_limbs()) {
+            return Self::ZERO();
+        }
+        self.wrapping_shr(rhs.as_limbs()[0] as usize)
     }
 //@ end
 }
